@@ -342,6 +342,13 @@ def _top_calls(fn):
 
 @rule('C02', 'R7', 60, 'metadata: values written into the symbol are the ones stored in Code and reported by QRCode; name maps invertible')
 def r7(fx):
+    # for C02 the version information may be written at any point between make_matrix and Code (its area is reserved: neither the
+    # codeword placement nor the masking touches it); that masks are evaluated before it is written is a C06 matter (C06.R4)
+    yield from encode_stage_obligations(fx, version_info_after_mask=False)
+    yield from _qrcode_metadata(fx)
+
+
+def encode_stage_obligations(fx, version_info_after_mask):
     enc = fx.fn('encoder', '_encode')
     from .models import trace_encode
     lv_, mv_ = levels(fx), micro_versions(fx)
@@ -352,6 +359,11 @@ def r7(fx):
         rec, res, info = trace_encode(fx, rv, level, boosted, mask_in=mask_in)
         names = [r[0] for r in rec if r[0] in seq]
         by = {r[0]: r for r in rec}
+        vi_on_m0 = False
+        if not version_info_after_mask and names.count('add_version_info') == 1 and names[0] == 'make_matrix' and names[-1] == 'Code':
+            vi_on_m0 = names.index('add_version_info') < names.index('find_and_apply_best_mask') if 'find_and_apply_best_mask' in names else False
+            names.remove('add_version_info')
+            names.insert(len(names) - 1, 'add_version_info')
         be = None if boosted is None else lv_[boosted]
         n = iso.size_of(v)
         probs = []
@@ -374,7 +386,7 @@ def r7(fx):
             if not (fi[0] is M1 and tuple(fi[1:]) == (rv, be, 5)):
                 probs.append(f'add_format_info{fi}: expected the masked matrix, version {rv}, level {be}, mask 5')
             vi = by['add_version_info'][1]
-            if not (vi[0] is M1 and vi[1] == rv):
+            if not (vi[0] is (M0 if vi_on_m0 else M1) and vi[1] == rv):
                 probs.append(f'add_version_info{vi}')
             cd = by['Code'][1]
             if not (cd[0] is M1 and tuple(cd[1:4]) == (rv, be, 5) and cd[4] is info['segments']):
@@ -383,7 +395,11 @@ def r7(fx):
                 probs.append('_encode does not return the Code it built')
         yield ob(f'_encode v{v} level {level}->{boosted} mask {mask_in}: stages in order; format / version information and the returned Code carry the version, the final level and the mask that was applied',
                  not probs, enc, got='; '.join(probs[:3]) or 'as required', want='as required')
+
+
+def _qrcode_metadata(fx):
     # QRCode: what it stores and reports is what the Code carries (the class is interpreted on a marker Code)
+    lv_, mv_ = levels(fx), micro_versions(fx)
     from ..interp import Instance, module_namespace
     from .models import SegModel
     it = Interp()
